@@ -215,6 +215,15 @@ def configs(thorough, seed):
         out.append(({'model': model, 'dtype': 'f32', 'batch': 2, 'world': 1,
                      'seed': seed, 'kfac': k, 'sgd_lr': 0.0, 'loss_mult': 5.0,
                      'scale': sc, 'history': [['train']] * 3}, 'single'))
+    # float16: every layer's term is below 65504, their total is not
+    for (m, pre) in methods:
+        k = dict(damping=0.05, factor_decay=1.0, kl_clip=1e-3, lr=1.0,
+                 factor_dtype='f32', compute_method=m,
+                 compute_eigenvalue_outer_product=pre)
+        out.append(({'model': 'wide', 'dtype': 'f16', 'batch': 2, 'world': 1,
+                     'seed': seed, 'kfac': k, 'sgd_lr': 0.0,
+                     'loss_mult': 38.0, 'history': [['train']] * 2},
+                    'single'))
     strategies = {2: ['COMM_OPT', 'MEM_OPT'],
                   4: ['COMM_OPT', 'MEM_OPT', 'HYBRID_OPT']}
     for world in (2, 4):
